@@ -32,6 +32,7 @@ import (
 	"time"
 
 	ouroboros "github.com/blinklabs-io/gouroboros"
+	"github.com/blinklabs-io/gouroboros/connection"
 	"github.com/blinklabs-io/gouroboros/muxer"
 	"github.com/blinklabs-io/gouroboros/protocol"
 	"github.com/blinklabs-io/gouroboros/protocol/handshake"
@@ -377,7 +378,7 @@ func runDirect(i int, ac acceptance) {
 	if cfg.fam == famNtN || cfg.fam == famDMQNtN {
 		mode = protocol.ProtocolModeNodeToNode
 	}
-	cl := handshake.NewClient(protocol.ProtocolOptions{Muxer: m, ErrorChan: errs, Mode: mode, Role: protocol.ProtocolRoleClient}, &hcfg)
+	cl := handshake.NewClient(protocol.ProtocolOptions{ConnectionId: connection.ConnectionId{LocalAddr: a.LocalAddr(), RemoteAddr: a.RemoteAddr()}, Muxer: m, ErrorChan: errs, Mode: mode, Role: protocol.ProtocolRoleClient}, &hcfg)
 	cl.Start()
 	m.StartOnce()
 	s := rt.NewSel("h:outcome", false)
@@ -444,6 +445,9 @@ func scenario(name string, cases []acceptance) e1lib.Scenario {
 		add := func(key, what string) { byKey[key] = append(byKey[key], what) }
 		for i, ac := range cases {
 			id := fmt.Sprintf("accept(v=%d, %s)", ac.v, ac.d.label)
+			if ac.cfg.direct {
+				id = fmt.Sprintf("offer={%d} ", ac.cfg.v0) + id
+			}
 			pv, ok := proposed[i]
 			if !ok {
 				add("c19:no-proposal-seen", id)
@@ -505,3 +509,63 @@ func tailOf(s []string, n int) []string {
 	return s
 }
 
+func gen(thorough bool) []e1lib.Scenario {
+	vs, ds := allVersions(), allData()
+	tb := tables()
+	groups := map[string][]acceptance{}
+	var order []string
+	add := func(name string, ac acceptance) {
+		if _, ok := groups[name]; !ok {
+			order = append(order, name)
+		}
+		groups[name] = append(groups[name], ac)
+	}
+	class := func(offered []uint16, v uint16, d datum) string {
+		vc, dc := vclass(offered, v), dclass(v, d)
+		if vc == "known-not-offered" && dc != "undecodable" {
+			dc = "decodable" // a version that was not offered: one class whatever the magic
+		}
+		return vc + "|" + dc
+	}
+	// seam A: the Connection API (always offers the full table of its family)
+	for _, f := range []family{famNtN, famNtC, famDMQNtC} {
+		for _, v := range vs {
+			for _, d := range ds {
+				add("conn|"+famNames[f]+"|"+class(tb[f], v, d), acceptance{clientCfg{fam: f}, v, d})
+			}
+		}
+	}
+	// seam B: handshake.Client with a one-version table {v0}, every v0 of every table; the
+	// offered versions of one family share a scenario (one root cause = one finding key)
+	for _, f := range []family{famNtN, famNtC, famDMQNtC, famDMQNtN} {
+		for _, v0 := range tb[f] {
+			for _, v := range vs {
+				for _, d := range ds {
+					add("hsclient|"+famNames[f]+"|"+class([]uint16{v0}, v, d), acceptance{clientCfg{fam: f, direct: true, v0: v0}, v, d})
+				}
+			}
+		}
+	}
+	var scs []e1lib.Scenario
+	for _, name := range order {
+		s := scenario(name, groups[name])
+		s.MinB, s.MaxB, s.Budget = 0, 0, 300*time.Second
+		scs = append(scs, s)
+	}
+	// all schedules with <= 1 deviation for one representative acceptance of every class
+	for k, name := range order {
+		l := groups[name]
+		if !thorough && !(strings.HasPrefix(name, "conn|ntn|") || strings.HasSuffix(name, "|offered|valid-own-magic")) {
+			continue
+		}
+		s := scenario("sched|"+name, []acceptance{l[len(l)/2]})
+		s.MinB, s.MaxB, s.Budget = 1, 1, 60*time.Second
+		if thorough && k%5 == 0 {
+			s.MaxB, s.Budget = 2, 120*time.Second
+		}
+		scs = append(scs, s)
+	}
+	return scs
+}
+
+func TestC19(t *testing.T) { e1lib.Main(t, "C19", gen) }
